@@ -31,7 +31,8 @@ def make_device(kind, variant):
     kind does not set explicitly holds the SAME word (4) on both inverters, whatever their family - equal raw values meet
     different decoders."""
     eq = kind.endswith('=eq')
-    kind = kind.split('=')[0].replace('+ka', '').replace('+loops', '').replace('+r1', '')
+    lossy = '+lossy' in kind
+    kind = kind.split('=')[0].replace('+ka', '').replace('+loops', '').replace('+r1', '').replace('+lossy', '')
     if kind.startswith('ET'):
         d = ModbusDevice(0xF7, fill=(lambda a: 4) if eq else (lambda a: (a * 31 + 7) % 5000) if variant == 0 else (lambda a: (a * 17 + 1234) % 7000))
         et_device_info(d, serial=b'9010KETT000W0000' if kind == 'ET745' else b'9010KETU000W0000', rated=10000)
@@ -76,6 +77,7 @@ def make_device(kind, variant):
             d.refused = list(DT_OPTIONAL['meter'])      # (same serial number as 'DT': e.g. a replaced unit, or a clone)
         return 'DT', d
     d = EsDevice(firmware=b'2222E' if kind == 'ESv2' else b'1414E')
+    d.lossy = lossy
     for i in range(len(d.runtime)):
         d.runtime[i] = ((i * (7 if variant == 0 else 11) + 3) & 0x7F) if not eq else (4 if i % 2 else 0)
     d.settings[66:68] = b'\x00\x03'
@@ -318,7 +320,7 @@ PAIRS = [('ET', 'ET'), ('ET745', 'ET'), ('ETbad', 'ET745'), ('ETnobat', 'ET'), (
          ('DT', 'DT1'), ('DTrej', 'DT'), ('DT1', 'DT1'), ('ES', 'ESv2'), ('ETfrag', 'ETfrag'), ('ETfrag', 'DT'), ('ET', 'ETtcp'), ('ET', 'ETaddr'), ('ET', 'ESv2'), ('ET', 'DT'), ('ES', 'ES'), ('ETv1', 'ES'), ('ET745', 'ESv2'),
          ('ET=eq', 'DT=eq'), ('DT=eq', 'ET=eq'), ('ET=eq', 'ES=eq'), ('ES=eq', 'DT=eq'), ('ET=eq', 'ET745=eq')]
 # long-lived objects used from successive event loops (keep-alive on / off): two-step sequences, one loop per step
-PAIRS += [('ETunset', 'ET745'), ('ET745', 'ETunset'), ('ETunset55', 'ET745'), ('ETunset', 'ETv1'), ('DTnometer', 'DT'), ('DT', 'DTnometer'), ('DTnometer', 'DTnometer')]
+PAIRS += [('ES+lossy+r1', 'ES+lossy+r1'), ('ES+lossy+r1', 'ESv2+r1'), ('ETunset', 'ET745'), ('ET745', 'ETunset'), ('ETunset55', 'ET745'), ('ETunset', 'ETv1'), ('DTnometer', 'DT'), ('DT', 'DTnometer'), ('DTnometer', 'DTnometer')]
 LOOP_PAIRS = [('ET+ka+loops', 'DT+ka+loops'), ('ET+ka+loops', 'ET+loops'), ('DT+ka+loops', 'ES+ka+loops'), ('ET+ka+loops', 'ETtcp+ka+loops')]
 
 
